@@ -63,7 +63,7 @@ func mkSpec(p Knobs) *common.Spec {
 	s.PROPORTIONAL_SLASHING_MULTIPLIER_ALTAIR = 2
 	s.PROPORTIONAL_SLASHING_MULTIPLIER_BELLATRIX = 3
 	s.EPOCHS_PER_SYNC_COMMITTEE_PERIOD = 8
-	s.SHUFFLE_ROUND_COUNT = 10
+	s.SHUFFLE_ROUND_COUNT = 2
 	s.MAX_COMMITTEES_PER_SLOT = 4
 	s.TARGET_COMMITTEE_SIZE = 4
 	return s
@@ -91,6 +91,43 @@ type Mini struct {
 	PJ, CJ, Fin                         CP
 	Votes                               int
 	Hist                                int
+	PAtts, CAtts                        []Pend
+	Comms                               []Comm
+}
+
+// a pending attestation of a phase0 state
+type Pend struct {
+	Bits                              []bool
+	Slot, Index                       uint64
+	BBR                               byte
+	Src, Tgt                          uint64
+	TgtRoot                           byte
+	Delay, Proposer                   uint64
+}
+type Comm struct {
+	Slot, Index uint64
+	Members     []uint64
+}
+
+func bitlist(bits []bool) phase0.AttestationBits {
+	out := make(phase0.AttestationBits, len(bits)/8+1)
+	for i, b := range bits {
+		if b {
+			out[i/8] |= 1 << uint(i%8)
+		}
+	}
+	out[len(bits)/8] |= 1 << uint(len(bits)%8)
+	return out
+}
+func pendList(ps []Pend) phase0.PendingAttestations {
+	out := make(phase0.PendingAttestations, len(ps))
+	for i, a := range ps {
+		out[i] = &phase0.PendingAttestation{AggregationBits: bitlist(a.Bits),
+			Data: phase0.AttestationData{Slot: common.Slot(a.Slot), Index: common.CommitteeIndex(a.Index), BeaconBlockRoot: patt(a.BBR),
+				Source: common.Checkpoint{Epoch: common.Epoch(a.Src), Root: patt(0)}, Target: common.Checkpoint{Epoch: common.Epoch(a.Tgt), Root: patt(a.TgtRoot)}},
+			InclusionDelay: common.Slot(a.Delay), ProposerIndex: common.ValidatorIndex(a.Proposer)}
+	}
+	return out
 }
 
 var forkNames = []string{"Phase0", "Altair", "Bellatrix", "Capella", "Deneb"}
@@ -170,6 +207,7 @@ func buildState(spec *common.Spec, m *Mini) (common.BeaconState, error) {
 	case 0:
 		s := &phase0.BeaconState{Slot: common.Slot(m.Slot), Fork: fork, BlockRoots: br, StateRoots: sr, HistoricalRoots: hist,
 			Eth1DataVotes: votes, Validators: vals, Balances: bals, RandaoMixes: mixes, Slashings: sl,
+			PreviousEpochAttestations: pendList(m.PAtts), CurrentEpochAttestations: pendList(m.CAtts),
 			JustificationBits: common.JustificationBits{m.Bits}, PreviousJustifiedCheckpoint: cpOf(m.PJ),
 			CurrentJustifiedCheckpoint: cpOf(m.CJ), FinalizedCheckpoint: cpOf(m.Fin)}
 		err = s.Serialize(spec, w)
@@ -355,9 +393,27 @@ func coqMVs(vs []MV) string {
 }
 func coqKnobs(p Knobs) string { return u64s(p[:]) }
 func coqMini(m *Mini) string {
-	return fmt.Sprintf("(mkMini %s %d %s %s %s %s %s %s %d (%d,%d) (%d,%d) (%d,%d) %d %d)", forkNames[m.Fork], m.Slot,
+	return fmt.Sprintf("(mkMini %s %d %s %s %s %s %s %s %d (%d,%d) (%d,%d) (%d,%d) %d %d %s %s %s)", forkNames[m.Fork], m.Slot,
 		coqMVs(m.Vals), u64s(m.Bals), u8s(m.PP), u8s(m.CPart), u64s(m.Scores), u64s(m.Slash), m.Bits,
-		m.PJ.Epoch, m.PJ.B, m.CJ.Epoch, m.CJ.B, m.Fin.Epoch, m.Fin.B, m.Votes, m.Hist)
+		m.PJ.Epoch, m.PJ.B, m.CJ.Epoch, m.CJ.B, m.Fin.Epoch, m.Fin.B, m.Votes, m.Hist, coqPends(m.PAtts), coqPends(m.CAtts), coqComms(m.Comms))
+}
+func coqPends(ps []Pend) string {
+	it := make([]string, len(ps))
+	for i, a := range ps {
+		bs := make([]string, len(a.Bits))
+		for j, b := range a.Bits {
+			bs[j] = CoqBool(b)
+		}
+		it[i] = fmt.Sprintf("mkPend %s %d %d %d %d %d %d %d %d", CoqList(bs), a.Slot, a.Index, a.BBR, a.Src, a.Tgt, a.TgtRoot, a.Delay, a.Proposer)
+	}
+	return CoqList(it)
+}
+func coqComms(cs []Comm) string {
+	it := make([]string, len(cs))
+	for i, c := range cs {
+		it[i] = fmt.Sprintf("(%d, %d, %s)", c.Slot, c.Index, u64s(c.Members))
+	}
+	return CoqList(it)
 }
 func coqIdx(xs []common.ValidatorIndex) string {
 	it := make([]string, len(xs))
